@@ -109,3 +109,34 @@ package jsonrpc
 //@   ensures invalid_answered: !old(sane(**req)) ==> calls(addResponse) == old(calls(addResponse)) + 1
 //@   ensures notification_silent: old(sane(**req)) && old((*req).ID) == nil ==> calls(addResponse) == old(calls(addResponse))
 //@   ensures handler_at_most_once: calls_Call == old(calls_Call) || calls_Call == old(calls_Call) + 1
+
+// ---- batch or single request: decided by the first significant byte, wherever it is ---------------
+// The request stream is an abstract byte sequence: streamAt(r, i) is the byte at absolute offset i
+// (-1 at and beyond the end), rdPos the number of bytes the reader has consumed. Peek(n) shows the
+// next n bytes without consuming them and FAILS when fewer remain - or when n exceeds the reader's
+// buffer (bufio.ErrBufferFull), whatever the stream holds; Discard(n) consumes. isBatch answers
+// "is the first byte that is not insignificant whitespace a '['" for EVERY stream - also when the
+// whitespace run is longer than the buffer (defect F18: a growing Peek made such a batch "not a batch").
+//@ ghost func streamAt(r *bufio.Reader, i mathint) mathint
+//@ ghost func streamLen(r *bufio.Reader) mathint
+//@ ghost func bufSize(r *bufio.Reader) mathint
+//@ ghost var rdPos mathint
+//@ pure func isWs(c mathint) bool = c == 32 || c == 9 || c == 13 || c == 10
+//@ extern func bufio.(*Reader).Peek
+//@   ensures shown: result1 == nil ==> len(result0) == n && n <= bufSize(b) && rdPos + n <= streamLen(b) && (forall j int :: 0 <= j && j < n ==> result0[j] == streamAt(b, rdPos + j))
+//@   ensures fails_only_at_the_end_or_beyond_the_buffer: result1 != nil ==> n > bufSize(b) || rdPos + n > streamLen(b)
+//@ extern func bufio.(*Reader).Discard
+//@   assigns rdPos
+//@   ensures consumed: rdPos == old(rdPos) + result0 && 0 <= result0 && result0 <= n
+//@   ensures all_when_available: old(rdPos) + n <= streamLen(b) ==> result0 == n && result1 == nil
+//@ func isBatch
+//@   props C11
+//@   arith int
+//@   requires reader != nil && rdPos >= 0 && rdPos <= streamLen(reader) && streamLen(reader) < 1<<62 && bufSize(reader) >= 16
+//@   requires stream: forall i mathint :: (0 <= i && i < streamLen(reader) ==> 0 <= streamAt(reader, i) && streamAt(reader, i) <= 255) && (i >= streamLen(reader) ==> streamAt(reader, i) == -1)
+//@   assigns rdPos
+//@   loop 1: invariant only_whitespace_skipped: old(rdPos) <= rdPos && rdPos <= streamLen(reader) && (forall i mathint :: old(rdPos) <= i && i < rdPos ==> isWs(streamAt(reader, i)))
+//@   loop 1: invariant counted: skipped == rdPos - old(rdPos)
+//@   ensures only_whitespace_consumed: old(rdPos) <= rdPos && (forall i mathint :: old(rdPos) <= i && i < rdPos ==> isWs(streamAt(reader, i)))
+//@   ensures skipped_is_what_was_consumed: result1 == rdPos - old(rdPos)
+//@   ensures batch_iff_first_significant_byte_is_a_bracket: result0 <==> (exists k mathint :: rdPos <= k && k < streamLen(reader) && streamAt(reader, k) == 91 && (forall i mathint :: rdPos <= i && i < k ==> isWs(streamAt(reader, i))))
